@@ -209,8 +209,42 @@ func StopGates(p *core.Program, r *core.Report, rule string) {
 				okFalse = true
 			}
 		}
+		// the predicate inlined into its caller and written with a flag: `for _, e := range errors { if COND { stop = true; break } }`.
+		// The condition is judged where the flag is raised; the flag is raised nowhere else; the caller's own parameters are
+		// not the predicate's.
+		inlinedFlag := core.RefName(fd.Obj) != "stopProcessing"
+		flagRaisedOutside := false
+		if inlinedFlag {
+			w.OnStmt = func(s ast.Stmt, f facts.Formula) {
+				as, ok := s.(*ast.AssignStmt)
+				if !ok || as.Tok != token.ASSIGN || len(as.Lhs) != 1 || len(as.Rhs) != 1 {
+					return
+				}
+				if v, _ := core.ConstString(info, as.Rhs[0]); v != "true" {
+					return
+				}
+				if _, isID := ast.Unparen(as.Lhs[0]).(*ast.Ident); !isID {
+					return
+				}
+				overErrors := false
+				for _, l := range w.Loops {
+					if rs, isR := l.(*ast.RangeStmt); isR {
+						if fl := core.FieldOf(info, rs.X); fl != nil && core.RefName(fl) == "errors" {
+							overErrors = true
+						}
+					}
+				}
+				if overErrors {
+					nTrue++
+					judge(f)
+					okFalse = true
+				} else if b, isB := info.TypeOf(as.Lhs[0]).Underlying().(*types.Basic); isB && b.Info()&types.IsBoolean != 0 && stopFlagName(info, fd, as.Lhs[0]) {
+					flagRaisedOutside = true
+				}
+			}
+		}
 		w.WalkBody(fd.Decl.Body, nil)
-		r.Check(sig.Params().Len() == 0 && overAll && okTrue && nTrue >= 1 && okFalse, rule, fd.Key()+": stop iff SOME recorded error is fatal, or severe under stop-on-error", p.Pos(fd.Decl.Pos()),
+		r.Check((sig.Params().Len() == 0 || inlinedFlag) && overAll && okTrue && nTrue >= 1 && okFalse && !flagRaisedOutside, rule, fd.Key()+": stop iff SOME recorded error is fatal, or severe under stop-on-error", p.Pos(fd.Decl.Pos()),
 			"an existential loop over the whole error list with the condition IsFatal() || stopOnError && IsSevere()",
 			"the stop decision is not `exists e in errors: e.IsFatal() || stopOnError && e.IsSevere()` over the whole list (it takes a parameter, skips errors, or tests a different condition): a severe error can be followed by a partial report")
 	}
@@ -274,6 +308,59 @@ func StopGates(p *core.Program, r *core.Report, rule string) {
 			})
 			w.WalkBody(u.Decl.Body, nil)
 		}
+		// the predicate inlined as a flag loop over the recorded errors: that loop is the stop decision
+		var flagObjs []types.Object
+		if stopCalls == 0 {
+			for _, u := range units {
+				u := u
+				info := u.Pkg.TypesInfo
+				var outer []ast.Node
+				var visit func(n ast.Node, depth int)
+				visit = func(n ast.Node, depth int) {
+					ast.Inspect(n, func(m ast.Node) bool {
+						if m == nil || m == n {
+							return true
+						}
+						switch x := m.(type) {
+						case *ast.RangeStmt:
+							if fl := core.FieldOf(info, x.X); fl != nil && core.RefName(fl) == "errors" {
+								raised := false
+								ast.Inspect(x.Body, func(k ast.Node) bool {
+									if as, isAs := k.(*ast.AssignStmt); isAs && len(as.Lhs) == 1 && len(as.Rhs) == 1 {
+										if v, _ := core.ConstString(info, as.Rhs[0]); v == "true" {
+											if id, isID := ast.Unparen(as.Lhs[0]).(*ast.Ident); isID {
+												raised = true
+												flagObjs = append(flagObjs, info.ObjectOf(id))
+											}
+										}
+									}
+									return true
+								})
+								if raised {
+									stopCalls++
+									if u == fd {
+										stopPos = x.Pos()
+									} else {
+										stopPos = callPos[u]
+									}
+									if depth > 0 || helperInLoop[u] {
+										inLoop++
+									}
+								}
+							}
+							visit(x.Body, depth+1)
+							return false
+						case *ast.ForStmt:
+							visit(x.Body, depth+1)
+							return false
+						}
+						return true
+					})
+				}
+				_ = outer
+				visit(u.Decl.Body, 0)
+			}
+		}
 		r.Check(stopCalls == 1 && inLoop == 0 && stopPos > lastAppendPos, rule, fd.Key()+": the stop decision is taken once, after every error of this directory was recorded", p.Pos(fd.Decl.Pos()),
 			"one stopProcessing() call, outside loops, after the last append to da.errors", "the stop decision is taken inside the loop over the errors or before all of them are recorded: only some errors decide")
 		// the flag returned is true whenever stopProcessing() held
@@ -298,6 +385,34 @@ func StopGates(p *core.Program, r *core.Report, rule string) {
 				}
 				return true
 			})
+		}
+		// inlined form: the flag raised in the loop is itself a result of the function (named result or returned variable)
+		if !okFlag && len(flagObjs) > 0 {
+			for _, u := range units {
+				info := u.Pkg.TypesInfo
+				sigU := u.Obj.Type().(*types.Signature)
+				for i := 0; i < sigU.Results().Len(); i++ {
+					for _, fo := range flagObjs {
+						if types.Object(sigU.Results().At(i)) == fo {
+							okFlag = true
+						}
+					}
+				}
+				ast.Inspect(u.Decl.Body, func(nd ast.Node) bool {
+					if ret, isRet := nd.(*ast.ReturnStmt); isRet {
+						for _, res := range ret.Results {
+							if id, isID := ast.Unparen(res).(*ast.Ident); isID {
+								for _, fo := range flagObjs {
+									if info.ObjectOf(id) == fo {
+										okFlag = true
+									}
+								}
+							}
+						}
+					}
+					return true
+				})
+			}
 		}
 		r.Check(okFlag, rule, fd.Key()+": the caller is told to stop whenever stopProcessing() holds", p.Pos(fd.Decl.Pos()), "shouldStop = true under stopProcessing()", "the stop flag is not set under stopProcessing()")
 	} else {
@@ -911,4 +1026,33 @@ func extractedHelpers(p *core.Program, fd *core.FuncDecl) (units []*core.FuncDec
 		return true
 	})
 	return units, callPos
+}
+
+// stopFlagName: e names a variable that is also assigned `true` inside a loop over the recorded errors of fd (the stop flag).
+func stopFlagName(info *types.Info, fd *core.FuncDecl, e ast.Expr) bool {
+	id, ok := ast.Unparen(e).(*ast.Ident)
+	if !ok {
+		return false
+	}
+	o := info.ObjectOf(id)
+	found := false
+	ast.Inspect(fd.Decl.Body, func(nd ast.Node) bool {
+		rs, isR := nd.(*ast.RangeStmt)
+		if !isR {
+			return true
+		}
+		if fl := core.FieldOf(info, rs.X); fl == nil || core.RefName(fl) != "errors" {
+			return true
+		}
+		ast.Inspect(rs.Body, func(m ast.Node) bool {
+			if as, isAs := m.(*ast.AssignStmt); isAs && len(as.Lhs) == 1 {
+				if lid, isID := ast.Unparen(as.Lhs[0]).(*ast.Ident); isID && info.ObjectOf(lid) == o {
+					found = true
+				}
+			}
+			return true
+		})
+		return true
+	})
+	return found
 }
